@@ -45,7 +45,9 @@ func FromUnixMicros(us int64) time.Time {
 // time.Time.UnixNano, the result is undefined if the Unix time in microseconds
 // cannot be represented by an int64.
 func ToUnixMicros(t time.Time) int64 {
-	return t.Unix()*1e6 + int64(t.Round(time.Microsecond).Nanosecond())/1e3
+	// Round first: rounding can carry into the next second.
+	t = t.Round(time.Microsecond)
+	return t.Unix()*1e6 + int64(t.Nanosecond())/1e3
 }
 
 // Unix wraps time.Unix ensuring that the result is in UTC instead of Local.
